@@ -25,6 +25,8 @@ type Env struct {
 	callee      *ssa.Function // when evaluating a callee's contract at a call site
 	pkg         *types.Package
 	noProgram   bool // callee env: program variables of the caller are not visible
+	entryOnly   bool // inside old(): only parameters, globals and ghost state are visible
+	bodyLocals  bool // names may denote values defined inside the loop body (step / exits / at clauses)
 }
 
 func (e *Env) phiByValue(p *ssa.Phi, v *Val) {
@@ -176,6 +178,12 @@ func (e *Env) lookupName(name string) (*Val, error) {
 		return &Val{T: t, S: vc.get(e.st, key)}, nil
 	}
 	if !e.noProgram {
+		if e.bodyLocals && e.phiOverride == nil {
+			// inside a loop body: the latest definition reaching this point, else the loop variable itself
+			if v, err := vc.resolveLocal(e, name); err == nil && v != nil {
+				return v, nil
+			}
+		}
 		if e.loop != nil {
 			if v, ok := e.phiOverride[name]; ok {
 				return v, nil
@@ -187,7 +195,9 @@ func (e *Env) lookupName(name string) (*Val, error) {
 		if v, ok := vc.params[name]; ok {
 			return v, nil
 		}
-		if v, err := vc.resolveLocal(e, name); err == nil && v != nil {
+		if e.entryOnly {
+			// fall through to package-level names
+		} else if v, err := vc.resolveLocal(e, name); err == nil && v != nil {
 			return v, nil
 		} else if err != nil {
 			return nil, err
@@ -267,7 +277,18 @@ func (vc *FnVC) resolveLocal(e *Env, name string) (*Val, error) {
 			if vi, ok := b.val.(ssa.Instruction); ok && vi.Block() != nil {
 				def = vi.Block()
 			}
-			if at != nil && !(b.block.Dominates(at) || def.Dominates(at)) {
+			if at != nil && !e.bodyLocals && !(b.block.Dominates(at) || def.Dominates(at)) {
+				continue
+			}
+			if e.bodyLocals {
+				// any definition that dominates the current point is visible
+				cur := vc.curBlock
+				if cur != nil && !(def.Dominates(cur) || def == cur) {
+					continue
+				}
+				if best == nil || best.addr || (best.block.Dominates(b.block) && (best.block != b.block || b.idx > best.idx)) {
+					best = b
+				}
 				continue
 			}
 			if at != nil && b.block == at && e.loop != nil {
@@ -331,6 +352,14 @@ func (vc *FnVC) evalTerm(env *Env, x Expr) (*Val, error) {
 		}
 		n := env.withState(env.old)
 		n.atReturn = false
+		if !env.noProgram {
+			// at function entry only the parameters exist: loop variables that shadow a parameter name denote the parameter
+			n.loop = nil
+			n.phiOverride = nil
+			n.phiVal = nil
+			n.bodyLocals = false
+			n.entryOnly = true
+		}
 		return vc.evalTerm(n, x.X)
 	case EUnary:
 		v, err := vc.evalTerm(env, x.X)
@@ -730,6 +759,18 @@ func (vc *FnVC) evalCall(env *Env, c ECall) (*Val, error) {
 		}
 		a, b := vc.coerceNil(args[1], args[2])
 		return &Val{T: a.T, S: smtIte(args[0].S, a.S, b.S)}, nil
+	case "prev": // prev(e): in a step clause, e evaluated with the loop variables at the start of the iteration
+		if len(c.Args) != 1 || env.loop == nil {
+			return nil, fmt.Errorf("prev(e) is only meaningful in a loop step clause")
+		}
+		n := *env
+		n.phiOverride = nil
+		n.phiVal = nil
+		n.bodyLocals = false
+		if env.loop.headSt != nil {
+			n.st = env.loop.headSt
+		}
+		return vc.evalTerm(&n, c.Args[0])
 	case "unit": // unit(c): the one-byte string
 		if err := evalArgs(); err != nil {
 			return nil, err
